@@ -795,7 +795,7 @@ func (x *Engine) structKeys(t types.Type, keys map[string]bool) {
 
 // specModKeys adds the components named by a contract's modifies clauses; false if they cannot be determined.
 func (x *Engine) specModKeys(fs *FuncSpec, keys map[string]bool) bool {
-	if !fs.HasMod {
+	if !fs.HasMod || fs.ModHeap {
 		return false
 	}
 	for _, m := range fs.Modifies {
